@@ -1,5 +1,5 @@
 CONSTANTS
-  NShapes = 13
+  NShapes = 16
   Nms = {0, 1, 2}
   Srcs = {"var", "lit", "dflt"}
   Dirs = {0, 1, 2, 3}
@@ -15,6 +15,6 @@ CONSTANTS
   KeyDropsDirs = FALSE
 SPECIFICATION TraceSpec
 CONSTRAINT HighWater
-INVARIANTS T_Transparent T_Model
+INVARIANTS T_Transparent T_Model T_Capacity
 POSTCONDITION TraceAccepted
 CHECK_DEADLOCK FALSE
